@@ -152,7 +152,7 @@ let run_case op t =
       let raw = String.length base > 3 && String.sub base 0 3 = "raw" in
       if ((fn.[k - 1] = 'f' && fm = "32") || (fn.[k - 1] = 'l' && fm = "80")) && not raw
          && List.mem base [ "floor"; "ceil"; "trunc"; "round"; "rint"; "fabs"; "lrint"; "llrint"; "fmod"; "remainder";
-                            "copysign"; "fmin"; "fmax"; "fdim"; "nextafter"; "rm_rint"; "rm_lrint"; "rm_llrint" ]
+                            "copysign"; "fmin"; "fmax"; "fdim"; "nextafter"; "rm_rint"; "rm_lrint"; "rm_llrint"; "hypot" ]
       then base else fn
     end in
   match fn with
